@@ -134,7 +134,8 @@ class AbstractWalkModelDiGraph(ABC):
 
         self.subset_constraints_coverage = subset_constraints_coverage
         if len(subset_constraints) > 0:
-            if self.subset_constraints_coverage <= 0 or self.subset_constraints_coverage > 1:
+            # (written so that NaN is rejected as well)
+            if not (0 < self.subset_constraints_coverage <= 1):
                 utils.logger.error(f"{__name__}: subset_constraints_coverage must be in the range (0, 1]")
                 raise ValueError("subset_constraints_coverage must be in the range (0, 1]")
 
